@@ -1,6 +1,7 @@
 """C04 - input sessions are atomic and readers see one input snapshot.
 
-specs/EnginePhase.tla models tracked() / input_session() / set / commit at the
+specs/EnginePhase.tla models tracked() / input_session() / set / commit or plain drop of
+the session (its commit then runs in a spawned task that owns the guard) at the
 granularity of the code (lock acquisition, timestamp load, timestamp bump as
 separate steps) and is model-checked for ReaderSeesSnap, Exclusion and
 Progress.  Its behaviours are (task, step) schedules: they are replayed on the
@@ -59,6 +60,23 @@ def run(tier, seed):
     good = [s for s in scheds if not s["bad"]]
     rnd.shuffle(good)
     chosen = bad + (good[:600] if quick else good)
+    # second exhaustive family: one reader, two sessions, each committed or simply dropped (the next session
+    # is requested while the spawned commit of the dropped one may still be running)
+    cfg2 = os.path.join(wd, "gen2.cfg")
+    open(cfg2, "w").write(f"""SPECIFICATION Spec
+CONSTANTS
+  Readers = {{1}}
+  MaxSessions = 2
+  QueriesPerReader = 1
+  LockBeforeBump = {'TRUE' if fixed else 'FALSE'}
+  DropSessions = TRUE
+  Emit = TRUE
+CHECK_DEADLOCK FALSE
+""")
+    two, g2 = gen_schedules(cfg2)
+    if not two:
+        raise vp.ToolError("schedule generator (two sessions) produced nothing:\n" + g2["out"][-2000:])
+    chosen += two
     big = []
     if not quick:
         cfg3 = os.path.join(wd, "gen3.cfg")
@@ -68,6 +86,7 @@ CONSTANTS
   MaxSessions = 2
   QueriesPerReader = 2
   LockBeforeBump = {'TRUE' if fixed else 'FALSE'}
+  DropSessions = TRUE
   Emit = TRUE
 CHECK_DEADLOCK FALSE
 """)
@@ -136,6 +155,8 @@ CHECK_DEADLOCK FALSE
                   "ReaderSeesSnap_holds": model_holds, "distinct_states": mc["distinct"],
                   "liveness_Progress_holds": live["ok"], "liveness_states": live["distinct"]},
         "schedules_exhaustive_2readers_1session": len(scheds),
+        "schedules_exhaustive_1reader_2sessions": len(two),
+        "schedules_with_a_dropped_session": sum(1 for b in chosen + big if any(x["s"] == "drop_session" for x in b["steps"])),
         "schedules_predicted_bad_by_model": len(bad),
         "schedules_replayed": len(chosen) + len(big),
         "stress_traces": len(traces) - 1,
